@@ -9,7 +9,13 @@ use crate::{ConnectionState, State, Timer};
 /// identity at the same incarnation and is active; otherwise nothing at all
 /// happens.
 pub fn c11_timeout_iff<S: Src>(s: &mut S) {
-    let mut f = arb_foca(s, Shape::k(2));
+    c11_timeout_iff_k(s, 2)
+}
+pub fn c11_timeout_iff_k3<S: Src>(s: &mut S) {
+    c11_timeout_iff_k(s, 3)
+}
+fn c11_timeout_iff_k<S: Src>(s: &mut S, k: usize) {
+    let mut f = arb_foca(s, Shape::k(k));
     let member_id = Id::arb(s);
     let inc = s.u16();
     let token = s.u8();
